@@ -6,7 +6,8 @@ Union of three complete sub-lattices:
   method     forward method x backward method x E/M x E dtype x dtype x n            (two parameter placements)
   placement  parameter placement (13) x (forward, backward) pairs x E/M x dtype x batch pattern
   subset     every non-empty subset of {A-parameters, B, E, M-parameters} requiring grad x order {1, 1 with
-             create_graph, 2} x cotangent kind
+             create_graph, 2} x cotangent kind; for order 1 the same operator objects are then used for a second
+             solve + backward (the parameter substitution of the first backward must have been undone)
 """
 from __future__ import annotations
 import itertools
@@ -54,7 +55,7 @@ TOL = 1e-11
 
 DEFAULTS = {"plane": "method", "place": "dense_leaf", "mplace": "dense", "fwd": "custom_exactsolve", "bck": "exactsolve",
             "E": "none", "Edtype": "-", "dtype": "f64", "n": 3, "ncols": 2, "bA": "", "bB": "2", "bE": None, "bM": None,
-            "req": "AB", "cot": "dense", "order": "2", "vseed": 0}
+            "req": "AB", "cot": "dense", "order": "2", "reuse": False, "vseed": 0}
 
 
 def mk(**kw):
@@ -158,7 +159,8 @@ def cases(tier, seed):
                             for cot in (["dense"] if (quick and len(req) < len(groups)) else ["dense", "unit", "zerocol"]):
                                 pat = BATCH3_JAC[1] if place in JACS else BATCH3[1]
                                 out.append(mk(plane="subset", place=place, fwd=fwd, bck=bck, E=em, Edtype=ed, dtype=dtype,
-                                              n=3, ncols=2, req=req, order=order, cot=cot, **_pat(em, pat)))
+                                              n=3, ncols=2, req=req, order=order, cot=cot, reuse=(order != "2"),
+                                              **_pat(em, pat)))
     order = {"method": 0, "placement": 1, "subset": 2}
     out.sort(key=lambda c: (c["vseed"] != 0, order[c["plane"]], c["n"]))
     return out
@@ -522,6 +524,36 @@ def run_case(cfg):
                                       {"leaf": nm, "max_abs_diff": d, "tolerance": tol2 * scale2, "reference_max": scale2,
                                        "got_none": a is None, "why": why}, leaf=nm, stage="second"))
                 obs["r2"] = _bucket(worst2)
+    if cfg["reuse"] and not viol:
+        # the same operator objects are used for a second solve after a backward pass went through them:
+        # the temporary parameter substitution of the first backward must have been undone
+        torch.manual_seed(980)
+        with sc.quiet_stderr():
+            of2 = call(xitorch.linalg.solve, A, pb["B"], pb["E"], M, bck_options=bck_opts, **fwd_opts)
+        if of2.exc is not None:
+            viol.append(V("reuse-forward-" + exc_class(of2.exc), {"exception": of2.exc_sig}, stage="reuse"))
+        elif not of2.warned:
+            v2 = cotangent(cfg, tuple(xref.shape), xref.dtype, g)
+            xref2 = pb["ref"]()
+            lr2 = contraction(xref2, v2)
+            l2 = contraction(of2.value, v2)
+            if l2.requires_grad:
+                with sc.quiet_stderr():
+                    o3 = call(torch.autograd.grad, l2, req, allow_unused=True)
+            else:
+                o3 = call(lambda: [None] * len(req))
+            if o3.exc is not None:
+                viol.append(V("reuse-backward-" + exc_class(o3.exc), {"exception": o3.exc_sig}, stage="reuse"))
+            elif not o3.warned:
+                g3ref = list(torch.autograd.grad(lr2, req, allow_unused=True)) if lr2.requires_grad else [None] * len(req)
+                scale3 = max([1.0] + [r.detach().abs().max().item() for r in g3ref if r is not None and r.numel()])
+                for nm, lf, a, r in zip(req_names, req, list(o3.value), g3ref):
+                    d, _, why = _cmp(a, r, lf)
+                    if not d <= tol1 * scale3:
+                        viol.append(V("reuse-grad-mismatch:" + group_of[nm],
+                                      {"leaf": nm, "max_abs_diff": d, "tolerance": tol1 * scale3, "reference_max": scale3,
+                                       "got_none": a is None, "why": why}, leaf=nm, stage="reuse"))
+                obs["reuse"] = "checked"
     if viol:
         status = "violation"
     return {"viol": viol, "obs": obs, "status": status}
